@@ -53,7 +53,7 @@ Res(main, ts, bl) == [main |-> main, ts |-> ts, bl |-> bl]
 L(i) == ToString(i)
 
 WrapKinds == {"range", "rangekv", "rangeelse", "if", "ifelse", "iflet", "ifletelse", "let",
-              "ycont", "ycontp", "yctx", "ybody", "ybodyp", "blockdef",
+              "ycont", "ycontp", "ydef", "yctx", "ybody", "ybodyp", "blockdef",
               "include", "includectx", "exec", "tryin", "tryincatch", "catchbody"}
 
 \* the wrappers that push interpreter state (used for the deepest enumeration)
@@ -82,6 +82,10 @@ Wrap(kind, i, r) ==
                                                      YContent(id("y")), P(id("b"), Var("s"))>>)>>)
     [] kind = "ycontp"    -> Res(<<YieldC(id(""), "bp" \o L(i), <<Par("p", Lit("pv" \o L(i)))>>, NoE, m)>>, r.ts,
                                  r.bl \o <<BlockS(id("d"), "bp" \o L(i), <<Par("p", Lit("pd"))>>, NoE, <<P(id("a"), Var("p")), YContent(id("y")), T(id("b"))>>)>>)
+    \* the yield omits both declared parameters although the caller has variables of the same names: the defaults win
+    [] kind = "ydef"      -> Res(<<LetS(id("o"), "p", Lit("op" \o L(i))), YieldC(id(""), "bf" \o L(i), <<>>, NoE, m)>>, r.ts,
+                                 r.bl \o <<BlockS(id("d"), "bf" \o L(i), <<Par("p", Lit("pd" \o L(i))), Par("s", Lit("sd" \o L(i)))>>, NoE,
+                                                   <<P(id("a"), Var("p")), P(id("a2"), Var("s")), YContent(id("y")), T(id("b"))>>)>>)
     [] kind = "yctx"      -> Res(<<YieldC(id(""), "bc" \o L(i), <<>>, Lit("c" \o L(i)), m)>>, r.ts,
                                  r.bl \o <<BlockS(id("d"), "bc" \o L(i), <<>>, NoE,
                                                    <<P(id("a"), Ctx), LetS(id("l"), "s", Lit("bl" \o L(i))), YContentCx(id("y"), Lit("cc" \o L(i))), P(id("b"), Var("s"))>>)>>)
